@@ -6,8 +6,22 @@ DF = ["--unwind", "8", "--object-bits", "12"]
 
 def u(name, fn, entry, loopspec, what, timeout=600, tier="quick", solver="z3", **kw):
     d = {"name": name, "props": ["C14", "C12"], "kind": "U", "tier": tier, "src": U, "include": H, "entry": entry,
-         "mode": "dfcc", "dfcc": {"enforce": ["%s/%s_spec" % (fn, fn)], "loopspec": loopspec}, "cbmc": DF, "solver": solver,
-         "timeout": timeout, "functions": [fn], "what": what, "probe": False, "min_props": 20}
+         "mode": "dfcc", "dfcc": {"enforce": ["%s/%s_spec" % (fn, fn)], "loopspec": loopspec, "consts": {"V_LEN_MAX": "4096"}}, "cbmc": DF, "solver": solver,
+         "timeout": timeout, "functions": [fn], "what": what, "probe": False, "min_props": 20,
+         "bound": "values: len <= 4096 (object-size bound; every loop iteration covered by the invariant)"}
+    d.update(kw)
+    return d
+
+
+def s_variant(o, n=128, **kw):
+    """same contract text, quantifiers bounded by the constant n so that the SAT back end expands them (proves and refutes)"""
+    d = dict(o)
+    d["name"] = o["name"].replace(".u.", ".s.")
+    d["defs"] = list(o.get("defs", [])) + ["-DV_LEN_MAX=%dUL" % n]
+    d["dfcc"] = dict(o["dfcc"], consts={"V_LEN_MAX": str(n)})
+    d["solver"] = "sat"
+    d["tier"] = "quick"
+    d["bound"] = "values: len <= %d (constant-bounded quantifiers, SAT back end; every loop iteration covered by the invariant)" % n
     d.update(kw)
     return d
 
@@ -15,11 +29,11 @@ def u(name, fn, entry, loopspec, what, timeout=600, tier="quick", solver="z3", *
 OBLIGATIONS = [
     u("c14.u.memcmp", "sodium_memcmp", "hu_memcmp",
       {"sodium_memcmp": [{"id": 0, "assigns": "i,d", "dec": "len - i",
-                          "inv": "i <= len && (d == 0) == __CPROVER_forall { unsigned long q_l1; (q_l1 < i) ==> b1[q_l1] == b2[q_l1] }"}]},
+                          "inv": "i <= len && (d == 0) == __CPROVER_forall { unsigned long q_l1; (q_l1 < V_LEN_MAX) ==> ((q_l1 < i) ==> b1[q_l1] == b2[q_l1]) }"}]},
       "sodium_memcmp returns 0 iff all len bytes are equal, -1 otherwise; every len <= 4096; loop closed by invariant"),
     u("c14.u.is_zero", "sodium_is_zero", "hu_is_zero",
       {"sodium_is_zero": [{"id": 0, "assigns": "i,d", "dec": "nlen - i",
-                           "inv": "i <= nlen && (d == 0) == __CPROVER_forall { unsigned long q_l2; (q_l2 < i) ==> n[q_l2] == 0 }"}]},
+                           "inv": "i <= nlen && (d == 0) == __CPROVER_forall { unsigned long q_l2; (q_l2 < V_LEN_MAX) ==> ((q_l2 < i) ==> n[q_l2] == 0) }"}]},
       "sodium_is_zero returns 1 iff all bytes are zero"),
     u("c14.u.compare", "sodium_compare", "hu_compare",
       {"sodium_compare": [{"id": 0, "assigns": "i,gt,eq,x1,x2", "dec": "i",
@@ -30,32 +44,16 @@ OBLIGATIONS = [
       "sodium_compare returns the little-endian numeric order: 0 when equal, else decided by the top-most differing byte"),
     u("c14.u.increment", "sodium_increment", "hu_increment",
       {"sodium_increment": [{"id": 0, "assigns": "i,c,__CPROVER_object_upto(n,nlen)", "dec": "nlen - i",
-                             "inv": "i <= nlen && c <= 1"
-                                    " && __CPROVER_forall { unsigned long q_l3; (i <= q_l3 && q_l3 < nlen) ==> n[q_l3] == g_a0[q_l3] }"
-                                    " && (g_case == 0 ==> (c == 1 && (g_k < i ==> n[g_k] == 0)))"
-                                    " && (g_case == 1 ==> ((i <= g_j ==> c == 1) && (i > g_j ==> c == 0)"
-                                    "   && ((g_k < i && g_k < g_j) ==> n[g_k] == 0)"
-                                    "   && ((g_k < i && g_k == g_j) ==> n[g_k] == (unsigned char)(g_a0[g_k] + 1))"
-                                    "   && ((g_k < i && g_k > g_j) ==> n[g_k] == g_a0[g_k])))"}]},
-      "sodium_increment adds 1 modulo 2^(8 nlen) with full carry propagation (generic loop; asm fast paths not in the verified configuration)"),
+                             "inv": 'i <= nlen && c <= 1 && (i == 0 ==> c == 1) && (i <= g_k ==> n[g_k] == g_old0) && ((g_k + 1 < nlen && i <= g_k + 1) ==> n[g_k + 1] == g_old1) && (i > g_k ==> ((unsigned char)(n[g_k] - g_old0 - 0)) <= 1) && ((i > g_k && g_k == 0) ==> ((unsigned char)(n[g_k] - g_old0 - 0)) == 1) && (i == g_k + 1 ==> c == ((g_old0 + 0 + ((unsigned char)(n[g_k] - g_old0 - 0))) >> 8)) && (i > g_k + 1 ==> n[g_k + 1] == (unsigned char)(g_old1 + 0 + ((g_old0 + 0 + ((unsigned char)(n[g_k] - g_old0 - 0))) >> 8)))'}]},
+      "sodium_increment = +1 modulo 2^(8 nlen): schoolbook carry recurrence at every adjacent pair of positions (generic loop; asm fast paths are not in the verified configuration)", solver="kissat"),
     u("c14.u.add", "sodium_add", "hu_add",
       {"sodium_add": [{"id": 0, "assigns": "i,c,__CPROVER_object_upto(a,len)", "dec": "len - i",
-                       "inv": "i <= len && c <= 1"
-                              " && __CPROVER_forall { unsigned long q_l4; (i <= q_l4 && q_l4 < len) ==> a[q_l4] == g_a0[q_l4] }"
-                              " && ((g_case == 0 && i <= g_k) ==> c == 0)"
-                              " && ((g_case == 1 && g_j < i && i <= g_k) ==> c == 1)"
-                              " && ((g_case == 2 && g_j < i && i <= g_k) ==> c == 0)"
-                              " && (i > g_k ==> a[g_k] == (unsigned char)(g_a0[g_k] + b[g_k] + (g_case == 1 ? 1 : 0)))"}]},
-      "sodium_add = little-endian addition modulo 2^(8 len) against an independent carry-look-ahead specification", timeout=900, tier="thorough"),
+                       "inv": 'i <= len && c <= 1 && (i == 0 ==> c == 0) && (i <= g_k ==> a[g_k] == g_old0) && ((g_k + 1 < len && i <= g_k + 1) ==> a[g_k + 1] == g_old1) && (i > g_k ==> ((unsigned char)(a[g_k] - g_old0 - b[g_k])) <= 1) && ((i > g_k && g_k == 0) ==> ((unsigned char)(a[g_k] - g_old0 - b[g_k])) == 0) && (i == g_k + 1 ==> c == ((g_old0 + b[g_k] + ((unsigned char)(a[g_k] - g_old0 - b[g_k]))) >> 8)) && (i > g_k + 1 ==> a[g_k + 1] == (unsigned char)(g_old1 + b[g_k + 1] + ((g_old0 + b[g_k] + ((unsigned char)(a[g_k] - g_old0 - b[g_k]))) >> 8)))'}]},
+      "sodium_add = a+b modulo 2^(8 len): schoolbook carry recurrence at every adjacent pair of positions, b untouched", solver="kissat"),
     u("c14.u.sub", "sodium_sub", "hu_sub",
       {"sodium_sub": [{"id": 0, "assigns": "i,c,__CPROVER_object_upto(a,len)", "dec": "len - i",
-                       "inv": "i <= len && c <= 1"
-                              " && __CPROVER_forall { unsigned long q_l5; (i <= q_l5 && q_l5 < len) ==> a[q_l5] == g_a0[q_l5] }"
-                              " && ((g_case == 0 && i <= g_k) ==> c == 0)"
-                              " && ((g_case == 1 && g_j < i && i <= g_k) ==> c == 1)"
-                              " && ((g_case == 2 && g_j < i && i <= g_k) ==> c == 0)"
-                              " && (i > g_k ==> a[g_k] == (unsigned char)(g_a0[g_k] - b[g_k] - (g_case == 1 ? 1 : 0)))"}]},
-      "sodium_sub = little-endian subtraction modulo 2^(8 len) against a borrow-look-ahead specification", timeout=900, tier="thorough"),
+                       "inv": 'i <= len && c <= 1 && (i == 0 ==> c == 0) && (i <= g_k ==> a[g_k] == g_old0) && ((g_k + 1 < len && i <= g_k + 1) ==> a[g_k + 1] == g_old1) && (i > g_k ==> ((unsigned char)(g_old0 - b[g_k] - a[g_k])) <= 1) && ((i > g_k && g_k == 0) ==> ((unsigned char)(g_old0 - b[g_k] - a[g_k])) == 0) && (i == g_k + 1 ==> c == ((int)g_old0 < (int)b[g_k] + (int)((unsigned char)(g_old0 - b[g_k] - a[g_k])) ? 1 : 0)) && (i > g_k + 1 ==> a[g_k + 1] == (unsigned char)(g_old1 - b[g_k + 1] - ((int)g_old0 < (int)b[g_k] + (int)((unsigned char)(g_old0 - b[g_k] - a[g_k])) ? 1 : 0)))'}]},
+      "sodium_sub = a-b modulo 2^(8 len): schoolbook borrow recurrence at every adjacent pair of positions", solver="kissat"),
 ]
 
 
@@ -76,3 +74,37 @@ OBLIGATIONS += [
     b("c14.b.sub", "hb_sub", "sodium_sub", "sodium_sub against 128-bit integer arithmetic"),
     b("c14.b.memzero", "hb_memzero", "sodium_memzero", "sodium_memzero (explicit_bzero branch: libc model) wipes exactly [off, off+len)"),
 ]
+
+
+def f_verify(n, sse2):
+    return {"name": "c14.f.verify_%d.%s" % (n, "sse2" if sse2 else "portable"), "props": ["C14", "C02", "C12"], "kind": "F", "tier": "quick",
+            "src": "harness/verify_f.c", "entry": "hf_verify_%d" % n, "keep": ["HAVE_EMMINTRIN_H"] if sse2 else [],
+            "cbmc": ["--unwind", "66", "--unwinding-assertions"], "timeout": 300,
+            "functions": ["crypto_verify_%d" % n, "crypto_verify_n (%s)" % ("SSE2 intrinsics path" if sse2 else "portable path")],
+            "what": "crypto_verify_%d == 0 iff all %d bytes equal, -1 otherwise, for all 2^%d inputs" % (n, n, 16 * n),
+            "assumes": ["__builtin_ia32_pmovmskb128 modelled in C (harness/verify_f.c)"] if sse2 else []}
+
+
+OBLIGATIONS += [f_verify(n, s) for n in (16, 32, 64) for s in (False, True)]
+
+
+OBLIGATIONS += [
+    u("c14.u.memzero.bzero", "sodium_memzero", "hu_memzero", None,
+      "sodium_memzero (HAVE_EXPLICIT_BZERO branch, the configured one): exactly len bytes zero, frame = pnt[0..len)",
+      assumes=["explicit_bzero == memset(.,0,.) (libc, modelled in harness/utils_u.c)"], min_props=5),
+    u("c14.u.memzero.memset", "sodium_memzero", "hu_memzero", None,
+      "sodium_memzero, memset + weak-symbol barrier branch (build without explicit_bzero)", drop=["HAVE_EXPLICIT_BZERO"], min_props=5),
+    u("c14.u.memzero.loop", "sodium_memzero", "hu_memzero",
+      {"sodium_memzero": [{"id": 0, "assigns": "i,__CPROVER_object_upto(pnt_,len)", "dec": "len - i",
+                           "inv": "i <= len && pnt_ == pnt && __CPROVER_forall { unsigned long q_l6; (q_l6 < V_LEN_MAX) ==> ((q_l6 < i) ==> pnt_[q_l6] == 0) }"}]},
+      "sodium_memzero, portable volatile-loop branch (build without explicit_bzero and weak symbols)",
+      drop=["HAVE_EXPLICIT_BZERO", "HAVE_WEAK_SYMBOLS"], min_props=5),
+    b("c14.b.memzero.memset", "hb_memzero", "sodium_memzero", "memset + barrier branch", drop=["HAVE_EXPLICIT_BZERO"]),
+    b("c14.b.memzero.loop", "hb_memzero", "sodium_memzero", "volatile loop branch", drop=["HAVE_EXPLICIT_BZERO", "HAVE_WEAK_SYMBOLS"]),
+]
+for o in OBLIGATIONS:
+    if o["dfcc"]["loopspec"] is None if o.get("mode") == "dfcc" else False:
+        del o["dfcc"]["loopspec"]
+
+_byname = {o["name"]: o for o in OBLIGATIONS}
+OBLIGATIONS += []
